@@ -140,7 +140,8 @@ CfgOf(n) ==
       timeout |-> IF (w \div 12) % 5 = 0 THEN 1 ELSE 0,
       console |-> (w \div 60) % 3 # 1,
       file |-> (w \div 60) % 3 # 2]
-WithSat(c) == (Weight(c) \div 7) % 4 = 0
+\* (not together with a timeout: the silent connections that hold the workers must not be answered 408 meanwhile)
+WithSat(c) == c.timeout = 0 /\ (Weight(c) \div 7) % 3 = 0
 
 \* pump scripts (byte values 0..255).  RFC 6455 5.7: masked text frame "Hello", unmasked text frame "Hello"
 HelloMasked == <<129, 133, 55, 250, 33, 61, 127, 159, 77, 81, 88>>
